@@ -13,13 +13,14 @@ theorem World.ext' {a b : World}
     (h6 : ∀ x, a.unis x = b.unis x) (h7 : ∀ x, a.members x = b.members x)
     (h8 : ∀ x, a.laws x = b.laws x) (h9 : ∀ x, a.attrs x = b.attrs x)
     (h10 : ∀ x, a.lcls x = b.lcls x) (h11 : ∀ x, a.ends x = b.ends x)
-    (h12 : ∀ x, a.appliesTo x = b.appliesTo x) (h13 : a.caching = b.caching)
+    (h12 : ∀ x, a.appliesTo x = b.appliesTo x) (h12' : ∀ x, a.rules x = b.rules x)
+    (h13 : a.caching = b.caching)
     (h14 : ∀ x, a.cache x = b.cache x) : a = b := by
   cases a; cases b
   simp only [World.mk.injEq]
   simp only at *
   exact ⟨h1, h2, h3, funext h4, funext h5, funext h6, funext h7, funext h8, funext h9,
-    funext h10, funext h11, funext h12, h13, funext h14⟩
+    funext h10, funext h11, funext h12, funext h12', h13, funext h14⟩
 
 theorem filter_ne_self (l : List (Option Nat)) (a : Option Nat) (h : a ∉ l) :
     l.filter (· != a) = l := by
